@@ -237,7 +237,7 @@ EXTRA = {
     "C15": "Lifecycle.tla has ResultAt (a named result asked for iteration i restores that iteration, then reads - Restores covers it): Result(name, iter=i) is replayed against an explicit Set_Iter followed by the read (values, mesh, fields), in the store behaviours and in dense short behaviours over SaveIter / SetMesh / ResultAt / Solve / SetIter on four simulation types (PhaseField with two meshes of equal size).",
     "C17": "The materials include an Anisotropic law given by its matrix (every split) and the same law after Set_C(..., update_S=False) (He split, which is defined from the stiffness alone).",
     "C19": "The commit behaviours of InelasticCommit.tla are also replayed on a QUAD4 + TRI3 mesh: every element group goes through the trial / commit cycle.",
-    "C20": "Size classes: a third-order type with 7 - 8 parts (its boundary group is listed after the bulk type) in the quick tier, 32 - 48 parts on meshes of about 700 nodes in the thorough tier, judged by Trace_Partition.tla.",
+    "C20": "Size classes: a third-order type with 7 - 8 parts (its boundary group is listed after the bulk type) in both tiers, judged by Trace_Partition.tla.",
 }
 # extensions of round 10
 EXTRA10 = {
